@@ -109,7 +109,28 @@ class SA:
     """Symbolic array."""
 
     __array_priority__ = 1000
-    __array_ufunc__ = None
+
+    def __array_ufunc__(self, ufunc, method, *inputs, **kwargs):
+        """numpy ufuncs applied to symbolic arrays by unpatched code (pint): dispatch to the
+        operators / shims; anything else is refused loudly."""
+        import operator as _op
+
+        if method != "__call__" or kwargs.get("out") is not None:
+            raise Unsupported(f"numpy ufunc {ufunc.__name__}.{method} on a symbolic array")
+        name = ufunc.__name__
+        binary = {"add": _op.add, "subtract": _op.sub, "multiply": _op.mul, "true_divide": _op.truediv, "divide": _op.truediv,
+                  "power": _op.pow, "greater": _op.gt, "less": _op.lt, "greater_equal": _op.ge, "less_equal": _op.le,
+                  "equal": _op.eq, "not_equal": _op.ne, "maximum": maximum, "minimum": minimum}
+        unary = {"negative": _op.neg, "absolute": absolute, "sqrt": sqrt, "exp": exp, "conjugate": conj, "isnan": isnan,
+                 "isfinite": isfinite, "square": square, "positive": _op.pos}
+        if name in binary and len(inputs) == 2:
+            a, b = inputs
+            if not isinstance(a, SA):
+                a = SA(_np.asarray(a, dtype=object)) if isinstance(a, _np.ndarray) else a
+            return binary[name](a, b)
+        if name in unary and len(inputs) == 1:
+            return unary[name](inputs[0])
+        raise Unsupported(f"numpy ufunc {name} on a symbolic array")
 
     def __init__(self, data, kind=None):
         if isinstance(data, SA):
@@ -155,7 +176,14 @@ class SA:
                 return type(x)(conc(e) for e in x)
             return x
 
-        if name in SHIMS and not all(a.is_concrete() for a in args if isinstance(a, SA)):
+        def any_symbolic(x):
+            if isinstance(x, SA):
+                return not x.is_concrete()
+            if isinstance(x, (list, tuple)):
+                return any(any_symbolic(e) for e in x)
+            return isinstance(x, (Sc, SymBool))
+
+        if name in SHIMS and (any_symbolic(args) or any_symbolic(list(kwargs.values()))):
             return SHIMS[name](*args, **kwargs)
         return func(*[conc(a) for a in args], **{k: conc(v) for k, v in kwargs.items()})
 
@@ -1034,6 +1062,17 @@ class NPFacade(types.ModuleType):
             return self._extra[name]
         if name in SHIMS:
             f = SHIMS[name]
+            if callable(f) and not isinstance(f, type) and hasattr(_np, name) and not CTX.trace_calls:
+                real_f = getattr(_np, name)
+
+                def quantity_aware(*a, _f=f, _r=real_f, **k):
+                    # pint quantities implement the numpy protocols themselves: hand them to real
+                    # numpy, which unwraps the magnitudes (possibly symbolic arrays) and re-dispatches
+                    if any(_is_quantity(x) or (isinstance(x, (list, tuple)) and any(_is_quantity(e) for e in x)) for x in a):
+                        return _r(*a, **k)
+                    return _f(*a, **k)
+
+                return quantity_aware
             if CTX.trace_calls and callable(f) and not isinstance(f, type):
                 def traced(*a, _f=f, _n=name, **k):
                     CTX.calls.append((_n, a))
